@@ -111,6 +111,7 @@ type HistHead struct {
 	Genesis       string `json:"genesis"`      // hex(genesis.Encode()), for replay
 	Prestate      []KV   `json:"prestate"`     // keys written directly before Init, for replay
 	Drain         bool   `json:"drain"`        // small cache, blocks with transactions and assets, then more consecutive deletes than the cache holds
+	Scripted      bool   `json:"scripted"`     // the first history of a run: a fixed-shape drain with flushes, so that the check's count floors are met by construction
 	FlushEvery    bool   `json:"flush_every"`  // force a memtable flush after every successful delete (always one at the end)
 }
 
